@@ -1,7 +1,7 @@
 """Colang 2 program model: JSON AST, renderer, Hypothesis strategies built by construction (DESIGN 3.3).
 
 A program is {"flows": [Flow...]}; Flow = {"name", "params": [..], "loop": None|"L1"|"NEW", "body": [Stmt...]}.
-`main` is flows[-1]; helper flow h_i may only reference helpers h_j with j > i (no recursion), every `while`
+`main` is flows[-1]; helper flow h_i may only reference helpers h_j with j > i (no recursion, unless profile["recursion"]: then a helper may end with a call of itself or of a lower-numbered helper), every `while`
 body starts with a waiting statement and `main` ends in `match Never()`, so event processing must terminate.
 
 Stmt kinds (dict with "k"):
@@ -327,6 +327,16 @@ def programs(draw, profile=None, max_helpers=4, depth=2):
         params = ["p"] if helper_params[i] else []
         ctx = Ctx(i, nh, params, prof)
         body = draw(_stmts(ctx, depth, helper_params, 1, 4, need_wait_first=prof.get("helpers_wait_first", True)))
+        if prof.get("recursion") and prof.get("helpers_wait_first", True) and draw(st.integers(0, 3)) == 0:
+            # recursion (direct, or mutual through a lower-numbered helper): the flow holding the back-reference starts with an
+            # unconditional waiting statement, so every call cycle contains one
+            j = draw(st.integers(0, i))
+            call = {"k": draw(st.sampled_from(["awaitflow", "awaitflow", "startflow"])), "f": j, "arg": draw(st.integers(0, 2)) if helper_params[j] else None}
+            if call["k"] == "startflow":
+                call["ref"] = ctx.flow_refs
+                ctx.flow_refs += 1
+            at = len(body) - 1 if body and body[-1]["k"] in ("return", "abort") else len(body)
+            body.insert(at, call)
         loop = draw(st.sampled_from([None, None, None, "L1", "NEW"])) if prof.get("loops", True) else None
         flows.append({"name": f"h{i}", "params": params, "loop": loop, "body": body})
     ctx = Ctx(nh, nh, [], prof)
@@ -338,6 +348,24 @@ def programs(draw, profile=None, max_helpers=4, depth=2):
         fl["body"] = [{"k": "assign", "var": v, "expr": 0} for v in VARS] + fl["body"]
     flows.append({"name": "main", "params": [], "loop": None, "body": body})
     return {"flows": flows}
+
+
+def has_recursion(prog):
+    """Some helper h_i calls itself or a lower-numbered helper (a call cycle exists or can exist)."""
+    def walk(stmts):
+        for s in stmts:
+            yield s
+            for key in ("then", "else", "body"):
+                if isinstance(s.get(key), list):
+                    yield from walk(s[key])
+            for case in s.get("cases", []):
+                yield from walk(case["body"])
+
+    for i, fl in enumerate(prog["flows"][:-1]):
+        for s in walk(fl["body"]):
+            if s["k"] in ("awaitflow", "startflow") and s.get("f") is not None and s["f"] <= i:
+                return True
+    return False
 
 
 def count_kinds(prog):
